@@ -1,0 +1,7 @@
+//go:build !verif
+// +build !verif
+
+package verifhook
+
+// At marks a hook point. It does nothing in regular builds.
+func At(point string) {}
